@@ -334,8 +334,10 @@ Section Rows.
   Variable m : list rule.
   Variable leaves : list (list str * srow).
 
-  (* the law at one node: its cell = what the mapping folds into it + the cells of its children *)
+  (* the law at one node: its cell = what the mapping folds into it + the cells of its children, in the
+     columns in which every leaf row (of the table without -m) is a finite number *)
   Definition LOC (px : list str * wnode) : Prop := forall j, (j < ncols)%nat ->
+    forallb (fun lf => scol_finite j (snd lf)) leaves = true ->
     ccol j (snd px) == own_sum m leaves (fst px) j + qsum (map (ccol j) (wn_children (snd px))).
 
   Definition gok (prs : list (list str * srow)) : Prop := groups_own_ok_b 0 ncols m leaves prs = true.
@@ -364,8 +366,10 @@ Section Rows.
     - rewrite !nrow_snoc. cbn [fst snd srow_depth]. rewrite map_app, rows_below.
       assert (Hk : Z.of_nat (length (p ++ [s])) = (Z.of_nat (length p) + 1)%Z) by (rewrite app_length; cbn [length]; lia).
       rewrite Hk, (members_children (Z.of_nat (length p)) ch (map snd tail) Ht).
-      apply forallb_forall. intros j Hj. apply in_seq in Hj. apply orb_true_iff. right. apply close_b_eq.
-      rewrite col_sum_first_rows. exact (Hloc j (proj2 Hj)).
+      apply forallb_forall. intros j Hj. apply in_seq in Hj.
+      destruct (forallb (fun lf => scol_finite j (snd lf)) leaves) eqn:Efin; [|rewrite andb_false_r; reflexivity].
+      apply orb_true_iff. right. apply close_b_eq.
+      rewrite col_sum_first_rows. exact (Hloc j (proj2 Hj) Efin).
     - assert (Ht' : tail_le (Z.of_nat (length (p ++ [s]))) (map snd tail))
         by (apply (tail_le_mono _ _ _ Ht); rewrite app_length; cbn [length]; lia).
       exact (Glist ch IH (p ++ [s]) tail Ht' Hrest Hg).
